@@ -302,15 +302,18 @@ AllocMain(k) ==
            /\ Finish(k, a.resp)
   /\ UNCHANGED loc
 
-\* failure path: remove the consumers this request recorded
+\* failure path: remove the consumers this request recorded, one transaction
+\* per consumer (delete_consumers loops over them)
 Cleanup(k) ==
   /\ pc[k] = "cleanup"
-  /\ LET del == IF "F3" \in FIXES
-                THEN {c \in loc[k].created : c \in DOMAIN db.cons /\ c \notin DOMAIN db.alloc}
-                ELSE {c \in loc[k].created : c \in DOMAIN db.cons}
-     IN Commit(k, [db EXCEPT !.cons = Without(@, del)])
-  /\ pc' = [pc EXCEPT ![k] = "done"]
-  /\ UNCHANGED <<loc, resp>>
+  /\ \E c \in loc[k].created :
+        LET gone == IF "F3" \in FIXES
+                    THEN c \in DOMAIN db.cons /\ c \notin DOMAIN db.alloc
+                    ELSE c \in DOMAIN db.cons
+        IN /\ Commit(k, IF gone THEN [db EXCEPT !.cons = Without(@, {c})] ELSE db)
+           /\ loc' = [loc EXCEPT ![k].created = @ \ {c}]
+           /\ pc' = [pc EXCEPT ![k] = IF loc[k].created = {c} THEN "done" ELSE "cleanup"]
+  /\ UNCHANGED resp
 
 ---------------------------------------------------------------------------
 \* environment
